@@ -4,10 +4,6 @@ import (
 	vp "github.com/Tnze/go-mc/internal/zzvp"
 )
 
-type vpInner struct {
-	X int16  `nbt:"x"`
-	S string `nbt:"s"`
-}
 
 type vpTarget struct {
 	A    int32            `nbt:"a"`
